@@ -333,6 +333,8 @@ func (r *pathRun) violation(kind, msg string, model map[uint64]uint64) {
 		Params: r.ex.cfg.Params, Decisions: len(r.decisions), Notes: r.renderNotes(model)}
 	if sc := r.w.i.sched; sc != nil {
 		v.Schedule = sc.scheduleString()
+	} else if r.ex.cfg.Goroutine {
+		v.Schedule = r.w.i.lastSchedule
 	}
 	r.ex.addViolation(v)
 	panic(pathEnd{kind: "violation", msg: msg})
